@@ -2,7 +2,12 @@
    Case: <hex input> <ext bits> <cfg 0=before the repairs|1=repaired> <events...> OR <oracles...>
    (events and oracles exactly as printed by harness/src/bin/analysis.rs).
    Prints `R valid=<b> <structure>` | `R none` | `R panic<site>`, plus ` ;; G <0|1>` = the
-   event sequence is parser_shaped. *)
+   event sequence is parser_shaped, plus ` ;; P <0|1|->` = the decision procedure of the C06
+   statement (recipe_ok_b, and valid_tbl_b of both tables when valid; proved equivalent to
+   recipe_ok / valid_tbl in Proofs/AnalysisProofs.v) on the model's recipe.
+   Second kind of case: D <valid 0|1> <recipe dump of the harness> OR <oracles...>
+   prints `P <0|1>` = the same decision procedure on the dumped recipe (what the implementation
+   returned, or a damaged copy of it in the monitor self-test). *)
 let toks : string list ref = ref []
 let next () : string =
   match !toks with
@@ -165,9 +170,95 @@ let dump (r : recipe) : string =
   add (Printf.sprintf "iq %d" (int_of_nat r.r_inline));
   Buffer.contents o
 
+(* ---- the inverse of [dump]: the recipe structure from its dump ---- *)
+let p_opt_hex () : n list option = let t = next () in if t = "-" then None else Some (str_of_hex t)
+
+let p_qinfo () : qinfo option =
+  let t = next () in
+  if t = "-" then None
+  else
+    let u = String.sub t 2 (String.length t - 2) in
+    Some { qi_text = (t.[0] = 't'); qi_fixed = (t.[1] = 'f');
+           qi_unit = (if u = "-" then None else Some (str_of_hex u)) }
+
+let p_rel () : relation =
+  let t = next () in
+  let k = String.index t ':' in
+  let rest = String.sub t (k + 1) (String.length t - k - 1) in
+  if t.[0] = 'r' then
+    RRef (nat_of_int (int_of_string rest),
+          (match t.[1] with 'c' -> TgComponent | 's' -> TgStep | 'e' -> TgSection | _ -> failwith "bad target"))
+  else
+    RDef ((if rest = "-" then [] else List.map (fun v -> nat_of_int (int_of_string v)) (String.split_on_char ',' rest)),
+          t.[1] = '1')
+
+let p_comp () : component =
+  expect "c";
+  let name = str_of_hex (next ()) in
+  let alias = p_opt_hex () in
+  let q = p_qinfo () in
+  let note = p_opt_hex () in
+  let rref = next () = "1" in
+  let mods = mods_of_bits (next_n ()) in
+  let rel = p_rel () in
+  { c_name = name; c_alias = alias; c_qty = q; c_note = note; c_rref = rref; c_mods = mods; c_rel = rel }
+
+let p_recipe () : recipe =
+  expect "secs";
+  let ns = next_int () in
+  let secs = repeat ns (fun () ->
+    expect "sec";
+    let name = p_opt_hex () in
+    let k = next_int () in
+    let content = repeat k (fun () ->
+      match next () with
+      | "tx" -> CText (str_of_hex (next ()))
+      | "st" ->
+          let num = next_int () in
+          let n = next_int () in
+          let items = repeat n (fun () ->
+            match next () with
+            | "T" -> IText (str_of_hex (next ()))
+            | "I" -> IIngredient (nat_of_int (next_int ()))
+            | "C" -> ICookware (nat_of_int (next_int ()))
+            | "M" -> ITimer (nat_of_int (next_int ()))
+            | "Q" -> IInline (nat_of_int (next_int ()))
+            | t -> failwith ("bad item tag " ^ t)) in
+          CStep { st_items = items; st_number = nat_of_int num }
+      | t -> failwith ("bad content tag " ^ t)) in
+    { sec_name = name; sec_content = content }) in
+  expect "ing";
+  let ni = next_int () in
+  let ings = repeat ni p_comp in
+  expect "cw";
+  let nc = next_int () in
+  let cws = repeat nc p_comp in
+  expect "tm";
+  let nt = next_int () in
+  let tms = repeat nt (fun () -> let name = p_opt_hex () in let q = p_qinfo () in { tm_name = name; tm_qty = q }) in
+  expect "iq";
+  let nq = next_int () in
+  { r_sections = secs; r_ingredients = ings; r_cookware = cws; r_timers = tms; r_inline = nat_of_int nq }
+
+let decide (ci_key : n list -> n list) (r : recipe) (v : bool) : bool =
+  recipe_ok_b r && (not v || (valid_tbl_b ci_key r.r_ingredients && valid_tbl_b ci_key r.r_cookware))
+
+let mk_ci_key names : n list -> n list = fun s ->
+  match List.assoc_opt s names with
+  | Some c -> [n_of_int c]
+  | None -> n_of_int 0x10ffff :: s
+
 let () =
   drive (fun f ->
     toks := f;
+    if List.hd f = "D" then begin
+      let _ = next () in
+      let v = next () = "1" in
+      let r = p_recipe () in
+      expect "OR";
+      let (names, _, _, _) = p_oracles () in
+      "P " ^ (if decide (mk_ci_key names) r v then "1" else "0")
+    end else
     let input = str_of_hex (next ()) in
     let ext = next_int () in
     let cfg = if next () = "1" then cfgF else cfg0 in
@@ -175,17 +266,16 @@ let () =
     let evs = repeat nev p_event in
     expect "OR";
     let (names, yaml, iq, units) = p_oracles () in
-    let ci_key (s : n list) : n list =
-      match List.assoc_opt s names with
-      | Some c -> [n_of_int c]
-      | None -> n_of_int 0x10ffff :: s in
+    let ci_key = mk_ci_key names in
     let yaml_ok (s : n list) : bool = match List.assoc_opt s yaml with Some b -> b | None -> true in
     let find_iq (s : n list) = match List.assoc_opt s iq with Some r -> r | None -> None in
     let unit_class (s : n list) : n = match List.assoc_opt s units with Some c -> n_of_int c | None -> N0 in
     let x = { x_modes = ext land 64 <> 0; x_inline = ext land 128 <> 0; x_advanced = ext land 32 <> 0 } in
     let shaped = match shape_run POut evs with Some POut -> "1" | _ -> "0" in
-    let r = match analyse ci_key yaml_ok find_iq unit_class input x cfg evs with
-      | Panic site -> "R panic" ^ string_of_n site
-      | Done (None, _) -> "R none"
-      | Done (Some r, v) -> "R valid=" ^ (if v then "1" else "0") ^ " " ^ dump r in
-    r ^ " ;; G " ^ shaped)
+    let (r, p) = match analyse ci_key yaml_ok find_iq unit_class input x cfg evs with
+      | Panic site -> ("R panic" ^ string_of_n site, "-")
+      | Done (None, _) -> ("R none", "-")
+      | Done (Some r, v) ->
+          let ok = decide ci_key r v in
+          ("R valid=" ^ (if v then "1" else "0") ^ " " ^ dump r, if ok then "1" else "0") in
+    r ^ " ;; G " ^ shaped ^ " ;; P " ^ p)
